@@ -46,4 +46,5 @@ for sid in ids:
     json.dump(res, open(os.path.join(d, 'result.json'), 'w'), indent=1)
     print(sid, 'caught' if res.get('caught') else 'MISSED', [(r_['check'], r_['violations'], r_['with_failing_input']) for r_ in res.get('runs', [])], res.get('apply_error', ''))
 # restore generated files / evidence for the clean tree
-subprocess.run(['git', 'checkout', '--', 'lean/MpVerif/Gen', 'evidence'], cwd=V)
+if not os.environ.get('SEED_NO_RESTORE'):
+    subprocess.run(['git', 'checkout', '--', 'lean/MpVerif/Gen', 'evidence'], cwd=V)
